@@ -1,23 +1,5 @@
-// ---- prelude for units/floyd_warshall.rs: the one assumed crate-level contract of that unit ----
-// A: DistanceMatrix::new (unsafe set_len/ptr::write body not extractable; its behaviour at orders <= 3 is checked by
-//    the Kani harnesses of C18).
-// Restates the rustdoc of src/algo/distance_matrix.rs `DistanceMatrix::new`: "Construct a new DistanceMatrix ...
-// # Panics: if `order` is zero; if `order * order` overflows" - so on RETURN order > 0 and order * order fits, the
-// matrix has order * order entries and every entry is `infinity`.  Panicking (order 0 / overflow) is a documented,
-// allowed outcome and is modelled as divergence: the postcondition only speaks about the returning case.
-impl<W: Copy> DistanceMatrix<W> {
-    #[verifier::external_body]
-    fn new(order: usize, infinity: W) -> (r: Self)
-        requires
-            true,
-        ensures
-            order > 0,
-            order * order <= usize::MAX,
-            r.wf(),
-            r.order == order,
-            r.infinity == infinity,
-            forall|i: int| 0 <= i < r.dist@.len() ==> r.dist@[i] == infinity,
-    {
-        unimplemented!()
-    }
-}
+// ---- prelude for units/floyd_warshall.rs ----
+// (empty) This file used to hold the one assumed crate-level contract of that unit, an external_body
+// `DistanceMatrix::new`.  `DistanceMatrix::new` is now extracted and PROVED against the same contract in
+// units/dm_new.rs (fragment units/inc/dm_new.inc.rs, imported by units/floyd_warshall.rs); what remains assumed are
+// the std contracts it rests on (prelude/dm_new_std.rs: Vec::with_capacity capacity model, Vec::set_len).
